@@ -14,7 +14,7 @@ package comments
 //@ axiom forall specs []ast.Spec :: MarkedCount(specs, 0) == 0
 //@ axiom forall specs []ast.Spec, n int :: n >= 0 ==> MarkedCount(specs, n+1) == MarkedCount(specs, n) + ite(MarkedSpec(specs[n]), 1, 0)
 
-//@ func parseGenDecl
+//@ func parseGenDecl(fset, pkg, decl)
 //@   props C19 C13
 // without a marker on the declaration itself, exactly the specs marked in their own doc comment become converters
 // (whatever kind of declaration it is, grouped or not, documented or not)
@@ -30,7 +30,7 @@ package comments
 //@   ensures !strings.Contains(parse.CommentToString(decl.Doc), "goverter:variables") && strings.Contains(parse.CommentToString(decl.Doc), "goverter:converter") && decl.Tok != token.TYPE ==> err != nil
 //@   ensures !strings.Contains(parse.CommentToString(decl.Doc), "goverter:variables") && strings.Contains(parse.CommentToString(decl.Doc), "goverter:converter") && err == nil ==> len(result) == 1
 
-//@ func parseFunctions
+//@ func parseFunctions(fset, pkg, decl, comments)
 //@   props C19
 //@   requires@C13 decl != nil && fset != nil && pkg != nil
 //@   ensures decl.Tok != token.VAR ==> err != nil
@@ -38,24 +38,24 @@ package comments
 //@   at call parseRawLines#1 assert arg1 == comments
 //@   at call parseRawLines#2 assert arg1 == parse.CommentToString(value.Doc)
 
-//@ func parseInterface
+//@ func parseInterface(fset, pkg, typeSpec, declDocs)
 //@   props C19
 //@   propagates
 //@   requires@C13 typeSpec != nil && fset != nil && pkg != nil
 //@   ensures !dynIs[*ast.InterfaceType](typeSpec.Type) ==> err != nil
 //@   at call parseRawLines#1 assert arg1 == declDocs
 
-//@ func parseInterfaceMethods
+//@ func parseInterfaceMethods(location, inter)
 //@   props C19
 //@   requires@C13 inter != nil && inter.Methods != nil && location != nil
 //@   at call parseRawLines#1 assert arg1 == parse.CommentToString(method.Doc)
 
-//@ func parseRawLines
+//@ func parseRawLines(location, comment)
 //@   props C19
 //@   ensures result.Location == location && same(result.Lines, parse.SettingLines(comment))
 
 // ---- C16: packages are loaded with -tags <BuildTags> iff build tags are configured ----
-//@ func ParseDocs
+//@ func ParseDocs(c)
 //@   props C16 C19
 //@   propagates
 //@   at@C16 call packages.Load#1 assert arg0.Dir == c.WorkingDir && ite(c.BuildTags != "", len(arg0.BuildFlags) == 2 && arg0.BuildFlags[0] == "-tags" && arg0.BuildFlags[1] == c.BuildTags, len(arg0.BuildFlags) == 0)
